@@ -102,6 +102,14 @@ impl Shell {
         ensures smap(final(self).aliases) == smap(old(self).aliases).remove(name@) && r == smap(old(self).aliases).contains_key(name@),
             smap(final(self).envs) == smap(old(self).envs) && smap(final(self).funcs) == smap(old(self).funcs)
     { unimplemented!() }
+    // contract proved in U-EXP2 (C17.table.content): None for an unknown name AND for an alias whose value is empty
+    #[verifier::external_body]
+    pub fn get_alias_content(&self, name: &str) -> (r: Option<String>)
+        ensures match r { Some(v) => smap(self.aliases).contains_key(name@) && v@ == smap(self.aliases)[name@] && v@.len() > 0,
+                          None => !smap(self.aliases).contains_key(name@) || smap(self.aliases)[name@].len() == 0 }
+    { unimplemented!() }
+    #[verifier::external_body]
+    pub fn is_alias(&self, name: &str) -> (r: bool) ensures r == smap(self.aliases).contains_key(name@) { unimplemented!() }
 }
 //@FN unalias_run
 ''' + common.TAIL
